@@ -80,3 +80,10 @@ Theorem C08_kept_character_stays_contiguous :
     is_boundary src (S q) = false -> newpos_from es start (S q) = S (newpos_from es start q).
 Proof. exact newpos_succ. Qed.
 Print Assumptions C08_kept_character_stays_contiguous.
+
+(* the decidable predicate `inv_b` that the correspondence run evaluates on the implementation's own offset map is
+   satisfied by every reachable state of the model: an implementation output that fails it is not a model state *)
+Theorem C08_reachable_satisfies_runtime_predicate :
+  forall o s, wf_text o = true -> Reach the_cfg o s -> inv_b o (cur s) (m2o s) = true.
+Proof. exact (reachable_satisfies_inv_b the_cfg C08_facts_ok). Qed.
+Print Assumptions C08_reachable_satisfies_runtime_predicate.
